@@ -7,6 +7,11 @@ import json, os
 import framework as F
 
 PROP = "C06"
+META = dict(
+    technique="Coq refinement proof (model -> ideal bounded queue / delay line) + coqc-evaluated model vs crate correspondence",
+    text="Machine-checked (Coq 8.16.1) refinement of a model of Bounded/Fixed, written after the source with the same index arithmetic, to an ideal capacity-bounded queue and an ideal delay line: every operation from every valid (start,len)/first state of every capacity, hence every history; no UB, no unprescribed panic. The model is tied to the crate by running its executable definitions inside coqc on the same operation sequences (every raw state of small capacities x every operation, random histories) and comparing all observations exactly.",
+    note="Trusted: Coq kernel; the hand-written model (Rust slices as lists, usize as nat, mem::replace/ptr::read/write as list updates) validated only through the correspondence; harness + python generators. Axioms: none.",
+    design="6/C06")
 HEADER = "From Dasp Require Import Ring.RingRun."
 CHECK = "check"
 
